@@ -8,12 +8,14 @@ and `DISCOVERED`, constant folding for AND/OR/XOR, XOR polarity extraction, dupl
 complement detection with the bit set `input_set` (including its out-of-range panics), forwarding
 of single-input gates, structural hashing of the sorted input list.
 
-The model is parametric in a `Cfg` of four Booleans.  `Cfg.repo` (all `false`) is the code as it
-is in `/repo` — this is what the driver executes and what the correspondence check compares with
-the real code.  Each flag switches one of the repairs of `work/proposed_fixes/Circuit-1.diff` on;
-`Cfg.fixed` is the model of the patched code.  The theorems in `Properties.lean` are proved for an
-arbitrary `cfg` under hypotheses of the form "flag set or the defect cannot trigger", so they
-yield the `…_partial` statements for `Cfg.repo` and the full statements for `Cfg.fixed`.
+The model is parametric in a `Cfg` of four Booleans, one per repair of the `fix:` commit c066e71 in
+`/repo` ("Circuit::simplify rejects unknown inputs … and maps empty and fully cancelled XOR gates to
+the right constant").  `Cfg.fixed` (all `true`) is the code as it is in `/repo` now — this is what
+the driver executes and what the correspondence check compares with the real code.
+`Cfg.beforeFix` (all `false`) is the code before that commit; it is kept so that the defects stay
+documented as theorems (`…_before_fix`).  The lemmas are proved for an arbitrary `cfg` under
+hypotheses of the form "flag set or the defect cannot trigger"; the headline theorems in
+`Properties.lean` instantiate them with `Cfg.fixed`, where these hypotheses are discharged.
 -/
 namespace OxiddModel.Circuit
 
@@ -80,7 +82,7 @@ structure Circuit where
   gates : Array Gate
   deriving Repr, DecidableEq
 
-/-- which of the proposed repairs are applied (`Cfg.repo`: none — the code as it is) -/
+/-- which of the repairs of commit c066e71 are applied (`Cfg.fixed`: all — the code as it is) -/
 structure Cfg where
   /-- (a) known-input bound is `inputs.len()` with `>=`; AND/OR scan all inputs before returning
   the dominator; roots that are unknown inputs are rejected -/
@@ -93,8 +95,10 @@ structure Cfg where
   xorCancel : Bool
   deriving DecidableEq, Repr
 
-def Cfg.repo : Cfg := ⟨false, false, false, false⟩
+/-- the code as it is in `/repo` -/
 def Cfg.fixed : Cfg := ⟨true, true, true, true⟩
+/-- the code before the `fix:` commit c066e71 -/
+def Cfg.beforeFix : Cfg := ⟨false, false, false, false⟩
 
 /-- `Err(l)` results and the panics of the real code; `fuel` is never produced (see
 `simplify_fuel_sufficient`) -/
@@ -113,8 +117,8 @@ def mapLit (gm : Array Lit) : Lit → Lit
   | .gate neg i => (gm.getD i Lit.undef).xorB neg
   | l => l
 
-/-- `l.is_input() && l.get_input().unwrap() > known_inputs` where the code computes
-`known_inputs = input_set.len() - gates.len() = G + 2 N` -/
+/-- `l.is_input() && l.get_input().unwrap() >= known_inputs` with `known_inputs = N`; before the fix
+the code compared `> known_inputs` with `known_inputs = input_set.len() - gates.len() = G + 2 N` -/
 def unknownInput (cfg : Cfg) (G N : Nat) : Lit → Bool
   | .input _ i => if cfg.bound then decide (N ≤ i) else decide (G + 2 * N < i)
   | _ => false
@@ -151,8 +155,8 @@ def xorFlip (gm : Array Lit) : Lit → Bool
   | .gate neg i => neg != (gm.getD i Lit.undef).isNeg
   | l => l.isNeg
 
-/-- XOR arm: is the input dropped (`x ⊕ ⊥ ≡ x`)?  In the code as it is only constants that are
-written in the gate itself are dropped, not constants that come out of `gate_map`. -/
+/-- XOR arm: is the input dropped (`x ⊕ ⊥ ≡ x`)?  Before the fix only constants
+written in the gate itself were dropped, not constants that come out of `gate_map`. -/
 def xorSkip (cfg : Cfg) (gm : Array Lit) : Lit → Bool
   | .gate _ i => cfg.xorConst && decide ((gm.getD i Lit.undef).positive = .const false)
   | l => decide (l.positive = .const false)
